@@ -25,6 +25,13 @@
 // ProposeBlock, body and time chosen by the scenario) so that the position of every transaction is scripted; the
 // variant "Propose" evaluates the node's own real ProposeBlock.
 //
+// Shards: every second population is large enough to be split into two shards by the real balanceShards at the end of
+// its first validation (SetShardsNum, per-identity SetShardId and the shard sizes are all set by the repository's code;
+// the binary is built with small shard size limits through the build overlay, see tools/props/c17b.py).  Its second
+// validation - the one that is run in variants - then has a lottery, candidates, flips, answers and evidence maps per
+// shard, with participation patterns chosen per shard so that the shards' evidence disagrees at the same bit positions
+// (assignShards).  The facts of a Chain line count evidence per shard.
+//
 // Output: one ndjson line per event (Scenario, Chain, Step, Eval, Commit), see spec/Trace_CeremonyRun.tla.
 // Exit code 3 + a line on stderr: a node refused an epoch block that its proposer accepted outside the scripted
 // part (the proposer's own block, or the common history): a verdict the caller reports.
@@ -60,6 +67,7 @@ import (
 	"github.com/idena-network/idena-go/rpc"
 	"github.com/idena-network/idena-go/secstore"
 	"github.com/idena-network/idena-go/stats/collector"
+	statsTypes "github.com/idena-network/idena-go/stats/types"
 	"github.com/ipfs/go-cid"
 	dbm "github.com/tendermint/tm-db"
 
@@ -73,10 +81,6 @@ const (
 	shortDur        = int64(120)
 	longDur         = int64(600)
 	interval        = int64(7200)
-	nKeys           = 14
-	kInvitee        = 10 // invited and activated in epoch 1: a candidate of the second validation
-	kInviteOnly     = 11 // invited in epoch 1, never activated
-	kInviteOnly0    = 13 // invited in epoch 0, never activated
 )
 
 // slots of one scripted ceremony; every slot is one block except Clean (as many blocks without ceremony
@@ -137,6 +141,20 @@ type evalRec struct {
 	Failed bool
 	Count  int
 	Parent string
+	Ms     []int // per key: 0 = evaluated and not treated as missed, 1 = treated as missed, 2 = not evaluated as a candidate
+	MsOk   bool  // the ceremony handed out its per-identity validation statistics
+}
+
+// valColl receives the ceremony's own per-identity record of the evaluation (approved / missed): the stats
+// collector interface is how the node publishes it
+type valColl struct {
+	collector.StatsCollector
+	stats *statsTypes.ValidationStats
+}
+
+func (c *valColl) SetValidation(v *statsTypes.ValidationStats) {
+	c.stats = v
+	c.StatsCollector.SetValidation(v)
 }
 
 type cnode struct {
@@ -163,8 +181,29 @@ func (c *cnode) attach() {
 	c.vc.Initialize(n.Chain.GetBlock(n.Chain.Head.Hash()))
 	vc := c.vc
 	n.Chain.ProvideApplyNewEpochFunc(func(height uint64, app *appstate.AppState, coll collector.StatsCollector) types.TotalValidationResult {
-		r := vc.ApplyNewEpoch(height, app, coll)
-		c.evals = append(c.evals, c.p.mkEval(n, height, app, r))
+		base := coll
+		if base == nil {
+			base = collector.NewStatsCollector()
+		}
+		vcoll := &valColl{StatsCollector: base}
+		r := vc.ApplyNewEpoch(height, app, vcoll)
+		e := c.p.mkEval(n, height, app, r)
+		e.MsOk = vcoll.stats != nil
+		for k := 0; k < c.p.nk; k++ {
+			m := 2
+			if vcoll.stats != nil {
+				for _, sh := range vcoll.stats.Shards {
+					if is, ok := sh.IdentitiesPerAddr[c.p.addr(k)]; ok {
+						m = 0
+						if is.Missed {
+							m = 1
+						}
+					}
+				}
+			}
+			e.Ms = append(e.Ms, m)
+		}
+		c.evals = append(c.evals, e)
 		return r
 	})
 }
@@ -212,34 +251,67 @@ type pop struct {
 	grps     map[string]*group
 	flipData [][]byte
 	variant  string // variant class of the node being run (for verdict messages)
+
+	multi        bool         // the network splits into two shards at the end of the first validation
+	nk           int          // number of keys
+	kInvitee     int          // invited and activated in epoch 1: a candidate of the second validation
+	kInviteOnly  int          // invited in epoch 1, never activated
+	kInviteOnly0 int          // invited in epoch 0, never activated
+	kUndef       int          // an address with coins that never was an identity
+	noEvid       map[int]bool // second validation: sends no evidence whatever else it does
 }
 
 func newPop(seed int64, id int) *pop {
-	p := &pop{id: id, seed: seed, variant: "proposer", rnd: rand.New(rand.NewSource(seed*1009 + int64(id)*31 + 7)), truth: map[string]types.Answer{}, grps: map[string]*group{}}
-	w := sim.NewWorld(seed*100+int64(id), nKeys)
+	p := &pop{id: id, seed: seed, variant: "proposer", rnd: rand.New(rand.NewSource(seed*1009 + int64(id)*31 + 7)), truth: map[string]types.Answer{}, grps: map[string]*group{},
+		noEvid: map[int]bool{}}
+	// every second population is large enough to be split into two shards by the real balanceShards at the end of the
+	// first validation (the driver is built with small shard size limits, see tools/props/c17b.py)
+	p.multi = id%2 == 1
+	var st []state.IdentityState
+	if !p.multi {
+		p.nk, p.kInvitee, p.kInviteOnly, p.kUndef, p.kInviteOnly0 = 14, 10, 11, 12, 13
+		st = []state.IdentityState{state.Human, state.Candidate, state.Candidate, state.Newbie, state.Newbie, state.Human, state.Human,
+			state.Suspended, state.Zombie, state.Candidate}
+	} else {
+		p.nk, p.kInvitee, p.kInviteOnly, p.kUndef, p.kInviteOnly0 = 23, 19, 20, 21, 22
+		// 10 validated identities at genesis (the god identity may author any number of flips only up to that size)
+		st = []state.IdentityState{state.Human, state.Human, state.Human, state.Human,
+			state.Newbie, state.Newbie, state.Newbie, state.Newbie, state.Newbie, state.Newbie,
+			state.Candidate, state.Candidate, state.Candidate, state.Candidate, state.Candidate,
+			state.Suspended, state.Suspended, state.Zombie, state.Zombie}
+	}
+	w := sim.NewWorld(seed*100+int64(id), p.nk)
 	w.ValCfg.FlipLotteryDuration = time.Duration(lotteryDur) * time.Second
 	w.ValCfg.ShortSessionDuration = time.Duration(shortDur) * time.Second
 	w.ValCfg.LongSessionDuration = time.Duration(longDur) * time.Second
 	w.ValCfg.ValidationInterval = time.Duration(interval) * time.Second
 	w.FirstCeremony = firstValidation
-	st := []state.IdentityState{state.Human, state.Candidate, state.Candidate, state.Newbie, state.Newbie, state.Human, state.Human,
-		state.Suspended, state.Zombie, state.Candidate}
 	for k, s := range st {
 		w.Allocs = append(w.Allocs, sim.Alloc{Key: k, State: s, Balance: sim.Dna(int64(1000+p.rnd.Intn(1000)), 1), Stake: sim.Dna(int64(20+p.rnd.Intn(200)), 1)})
 	}
-	w.Allocs = append(w.Allocs, sim.Alloc{Key: 12, State: state.Undefined, Balance: sim.Dna(500, 1)})
+	w.Allocs = append(w.Allocs, sim.Alloc{Key: p.kUndef, State: state.Undefined, Balance: sim.Dna(500, 1)})
 	p.w = w
-	for k := 0; k < nKeys; k++ {
+	for k := 0; k < p.nk; k++ {
 		s := secstore.NewSecStore()
 		s.AddKey(crypto.FromECDSA(w.Keys[k]))
 		p.secs = append(p.secs, s)
 	}
 	// behaviours: the god identity and two more always behave well (the validation must not fail as a whole and
 	// the evidence needs a majority); epoch 0 prepares a population with every status for epoch 1
-	p.beh[0] = make([]string, nKeys)
-	p.beh[1] = make([]string, nKeys)
-	for k := 0; k < nKeys; k++ {
+	p.beh[0] = make([]string, p.nk)
+	p.beh[1] = make([]string, p.nk)
+	for k := 0; k < p.nk; k++ {
 		p.beh[0][k], p.beh[1][k] = "good", "good"
+	}
+	for _, k := range []int{p.kInviteOnly, p.kInviteOnly0, p.kUndef} {
+		p.beh[0][k], p.beh[1][k] = "none", "none"
+	}
+	p.beh[0][p.kInvitee] = "none"
+	if p.multi {
+		p.beh[0][3] = "absent" // Human -> Suspended
+		p.beh[0][9] = []string{"absent", "wrong", "good"}[p.rnd.Intn(3)]
+		p.beh[0][18] = []string{"good", "absent"}[p.rnd.Intn(2)]
+		return p // the second validation's behaviours are chosen per shard once the shards exist (assignShards)
 	}
 	p.beh[0][6] = "absent" // Human -> Suspended: a suspended identity takes part in the second validation
 	p.beh[0][4] = []string{"absent", "wrong", "good"}[p.rnd.Intn(3)]
@@ -247,20 +319,131 @@ func newPop(seed int64, id int) *pop {
 	// second validation: keys 0, 3, 5, 7 behave well (and send evidence); among the newbies 1, 2, 9 one is the
 	// latecomer, one lacks a required flip; one of the suspended identity 6 and the new candidate 10 answers well but
 	// is confirmed by no majority; everybody else draws from the menu
-	menu := []string{"absent", "shortonly", "nohash", "badsalt", "wrong", "half", "reporter", "noevid", "good"}
-	pick := func() string { return menu[p.rnd.Intn(len(menu))] }
 	nb := []int{1, 2, 9}
 	p.rnd.Shuffle(3, func(i, j int) { nb[i], nb[j] = nb[j], nb[i] })
-	p.beh[1][nb[0]], p.beh[1][nb[1]], p.beh[1][nb[2]] = "late", "noflips", pick()
-	un := []int{6, kInvitee}
+	p.beh[1][nb[0]], p.beh[1][nb[1]], p.beh[1][nb[2]] = "late", "noflips", p.pick()
+	un := []int{6, p.kInvitee}
 	p.rnd.Shuffle(2, func(i, j int) { un[i], un[j] = un[j], un[i] })
-	p.beh[1][un[0]], p.beh[1][un[1]] = "unapproved", pick()
-	p.beh[1][4], p.beh[1][8] = pick(), pick()
-	for _, k := range []int{kInviteOnly, kInviteOnly0, 12} {
-		p.beh[0][k], p.beh[1][k] = "none", "none"
-	}
-	p.beh[0][kInvitee] = "none"
+	p.beh[1][un[0]], p.beh[1][un[1]] = "unapproved", p.pick()
+	p.beh[1][4], p.beh[1][8] = p.pick(), p.pick()
 	return p
+}
+
+var behMenu = []string{"absent", "shortonly", "nohash", "badsalt", "wrong", "half", "reporter", "noevid", "good"}
+
+func (p *pop) pick() string { return behMenu[p.rnd.Intn(len(behMenu))] }
+
+// assignShards chooses the behaviours of the second validation of a two-shard population PER SHARD, so that the
+// shards' evidence disagrees at the same bit indexes: shard A has three evidence senders, shard B as many as it can;
+// at some candidate index the identity of A answers well but is confirmed by no majority of A while the identity of B at
+// the same index is confirmed by all of B, at another index the identity of B is absent while the one of A is confirmed
+// by all of A, and the same with A and B exchanged.  (Evidence bits refer to positions in the sender's own shard.)
+func (p *pop) assignShards(b *cnode) {
+	st := b.n.App.State
+	if st.ShardsNum() != 2 {
+		panic(fmt.Sprintf("population %d was not split into two shards at the end of the first validation (shards: %d); the driver must be built "+
+			"with the small shard size limits", p.id, st.ShardsNum()))
+	}
+	lists := map[int][]int{}
+	for k := 0; k < p.nk; k++ {
+		id := st.GetIdentity(p.addr(k))
+		switch id.State {
+		case state.Candidate, state.Newbie, state.Verified, state.Human, state.Suspended, state.Zombie:
+			lists[int(id.ShiftedShardId())] = append(lists[int(id.ShiftedShardId())], k)
+		}
+	}
+	A := 1 + p.rnd.Intn(2)
+	B := 3 - A
+	byAddr := func(l []int) {
+		sort.Slice(l, func(i, j int) bool { return bytes.Compare(p.addr(l[i]).Bytes(), p.addr(l[j]).Bytes()) < 0 })
+	}
+	taken := map[int]bool{0: true}
+	choose := func(l []int, ok func(k int) bool) int {
+		var c []int
+		for _, k := range l {
+			if !taken[k] && ok(k) {
+				c = append(c, k)
+			}
+		}
+		if len(c) == 0 {
+			return -1
+		}
+		k := c[p.rnd.Intn(len(c))]
+		taken[k] = true
+		return k
+	}
+	isNewbieWithFlips := func(k int) bool {
+		id := st.GetIdentity(p.addr(k))
+		return id.State == state.Newbie && id.RequiredFlips > 0
+	}
+	mayEvidence := func(k int) bool { return st.GetIdentity(p.addr(k)).State != state.Candidate }
+	// one identity of B lacks a required flip (it is no candidate: the positions are those of the others), one newbie is the latecomer
+	if k := choose(lists[B], isNewbieWithFlips); k >= 0 {
+		p.beh[1][k] = "noflips"
+		var l []int
+		for _, x := range lists[B] {
+			if x != k {
+				l = append(l, x)
+			}
+		}
+		lists[B] = l
+	}
+	if k := choose(lists[B], isNewbieWithFlips); k >= 0 {
+		p.beh[1][k] = "late"
+	}
+	byAddr(lists[A])
+	byAddr(lists[B])
+	// evidence senders of A: three (the god identity among them when it lives there); everybody else of A sends none
+	var sendersA []int
+	for _, k := range lists[A] {
+		if k == 0 {
+			sendersA = append(sendersA, k)
+		}
+	}
+	for len(sendersA) < 3 {
+		k := choose(lists[A], mayEvidence)
+		if k < 0 {
+			break
+		}
+		sendersA = append(sendersA, k)
+	}
+	isSenderA := map[int]bool{}
+	for _, k := range sendersA {
+		isSenderA[k] = true
+	}
+	for _, k := range lists[A] {
+		if !isSenderA[k] {
+			p.noEvid[k] = true
+		}
+	}
+	// complementary roles at equal positions
+	n := len(lists[A])
+	if len(lists[B]) < n {
+		n = len(lists[B])
+	}
+	var free []int
+	for i := 0; i < n; i++ {
+		if !taken[lists[A][i]] && !taken[lists[B][i]] {
+			free = append(free, i)
+		}
+	}
+	p.rnd.Shuffle(len(free), func(i, j int) { free[i], free[j] = free[j], free[i] })
+	roles := [][2]string{{"unapproved", "good"}, {"good", "absent"}, {"good", "unapproved"}, {"absent", "good"}}
+	for j, i := range free {
+		if j >= len(roles) {
+			break
+		}
+		p.beh[1][lists[A][i]], p.beh[1][lists[B][i]] = roles[j][0], roles[j][1]
+		taken[lists[A][i]], taken[lists[B][i]] = true, true
+	}
+	// everybody else: one in three draws from the menu
+	for _, s := range []int{A, B} {
+		for _, k := range lists[s] {
+			if !taken[k] && p.rnd.Intn(3) == 0 {
+				p.beh[1][k] = p.pick()
+			}
+		}
+	}
 }
 
 func (p *pop) addr(k int) common.Address { return p.w.Addrs[k] }
@@ -405,42 +588,70 @@ func (p *pop) answers(flips [][]byte, mode string, k int, long bool) *types.Answ
 	return a
 }
 
-func (p *pop) ceremonyTxs(b *cnode, epoch int) (map[int]*ctxs, []common.Address) {
-	cands := b.vc.VerifCandidates(1)
-	idx := map[common.Address]int{}
-	for i, c := range cands {
-		idx[c] = i
+// candidates of every shard in lottery order
+func candidatesByShard(b *cnode) map[int][]common.Address {
+	res := map[int][]common.Address{}
+	for s := 1; s <= int(b.n.App.State.ShardsNum()); s++ {
+		res[s] = b.vc.VerifCandidates(common.ShardId(s))
 	}
-	seed := b.n.App.State.FlipWordsSeed()
+	return res
+}
+
+type candPos struct{ shard, i int }
+
+func positions(cands map[int][]common.Address) map[common.Address]candPos {
+	idx := map[common.Address]candPos{}
+	for s, l := range cands {
+		for i, c := range l {
+			idx[c] = candPos{s, i}
+		}
+	}
+	return idx
+}
+
+func (p *pop) ceremonyTxs(b *cnode, epoch int) (map[int]*ctxs, map[int][]common.Address) {
+	cands := candidatesByShard(b)
+	idx := positions(cands)
+	st := b.n.App.State
+	seed := st.FlipWordsSeed()
 	res := map[int]*ctxs{}
-	// who sends evidence: identities that may (no candidate status) and whose behaviour includes it
+	// who sends evidence: identities that may (no candidate status, not discriminated) and whose behaviour includes it
 	sendsEvidence := func(k int) bool {
 		beh := p.beh[epoch][k]
-		if _, ok := idx[p.addr(k)]; !ok || beh == "none" || beh == "absent" || beh == "noflips" || beh == "shortonly" || beh == "noevid" || beh == "late" {
+		if _, ok := idx[p.addr(k)]; !ok || beh == "none" || beh == "absent" || beh == "noflips" || beh == "shortonly" || beh == "noevid" || beh == "late" ||
+			(epoch == 1 && p.noEvid[k]) {
 			return false
 		}
-		return b.n.App.State.GetIdentity(p.addr(k)).State != state.Candidate
+		id := st.GetIdentity(p.addr(k))
+		if id.IsDiscriminated(st.DiscriminationStakeThreshold(), st.Epoch()) && k != 0 {
+			return false
+		}
+		return id.State != state.Candidate
 	}
-	var senders []int
-	for k := 0; k < nKeys; k++ {
+	// an "unapproved" identity is confirmed by as many evidence maps OF ITS SHARD as is still NO majority (exactly half
+	// when the number of maps is even)
+	vouchers := map[int]bool{}
+	senders := map[int][]int{}
+	for k := 0; k < p.nk; k++ {
 		if sendsEvidence(k) {
-			senders = append(senders, k)
+			s := idx[p.addr(k)].shard
+			senders[s] = append(senders[s], k)
 		}
 	}
-	// an "unapproved" identity is confirmed by as many evidence maps as is still NO majority (exactly half when the
-	// number of maps is even)
-	vouchers := map[int]bool{}
-	for _, k := range senders[:len(senders)/2] {
-		vouchers[k] = true
+	for _, l := range senders {
+		for _, k := range l[:len(l)/2] {
+			vouchers[k] = true
+		}
 	}
-	for k := 0; k < nKeys; k++ {
+	for k := 0; k < p.nk; k++ {
 		beh := p.beh[epoch][k]
 		a := p.addr(k)
-		if _, ok := idx[a]; !ok || beh == "none" || beh == "absent" || beh == "noflips" {
+		pos, ok := idx[a]
+		if !ok || beh == "none" || beh == "absent" || beh == "noflips" {
 			continue
 		}
-		shortFlips := b.vc.GetShortFlipsToSolve(a, 1)
-		longFlips := b.vc.GetLongFlipsToSolve(a, 1)
+		shortFlips := b.vc.GetShortFlipsToSolve(a, common.ShardId(pos.shard))
+		longFlips := b.vc.GetLongFlipsToSolve(a, common.ShardId(pos.shard))
 		c := &ctxs{k: k}
 		sa := p.answers(shortFlips, beh, k, false)
 		la := p.answers(longFlips, beh, k, true)
@@ -464,17 +675,18 @@ func (p *pop) ceremonyTxs(b *cnode, epoch int) (map[int]*ctxs, []common.Address)
 			c.hash = nil
 		}
 		if sendsEvidence(k) {
-			bm := common.NewBitmap(uint32(len(cands)))
-			for kk := 0; kk < nKeys; kk++ {
+			// the bits of an evidence map are positions in the sender's own shard (broadcastEvidenceMap: CoinbaseShard)
+			bm := common.NewBitmap(uint32(len(cands[pos.shard])))
+			for kk := 0; kk < p.nk; kk++ {
 				bb := p.beh[epoch][kk]
-				i, ok := idx[p.addr(kk)]
-				if !ok || bb == "none" || bb == "absent" || bb == "noflips" {
+				pp, ok := idx[p.addr(kk)]
+				if !ok || pp.shard != pos.shard || bb == "none" || bb == "absent" || bb == "noflips" {
 					continue
 				}
 				if bb == "unapproved" && !vouchers[k] {
 					continue
 				}
-				bm.Add(uint32(i))
+				bm.Add(uint32(pp.i))
 			}
 			buf := new(bytes.Buffer)
 			bm.WriteTo(buf)
@@ -632,7 +844,7 @@ func (p *pop) buildBase() {
 	for i := 0; i < 7; i++ {
 		txs = append(txs, p.tx(b, used, 0, types.SubmitFlipTx, nil, attachments.CreateFlipSubmitAttachment(p.flipCid(b, 0, 0, i), uint8(i)), 0))
 	}
-	to := p.addr(kInviteOnly0)
+	to := p.addr(p.kInviteOnly0)
 	txs = append(txs, p.tx(b, used, 0, types.InviteTx, &to, nil, 10))
 	emit(txs, 1000)
 	ch := &chain{id: "base0", builder: b, blocks: map[string][][]byte{}}
@@ -644,17 +856,20 @@ func (p *pop) buildBase() {
 	// epoch 1: invitations, activation, flips
 	used = map[int]uint32{}
 	txs = nil
-	for _, k := range []int{kInvitee, kInviteOnly} {
+	for _, k := range []int{p.kInvitee, p.kInviteOnly} {
 		to := p.addr(k)
 		txs = append(txs, p.tx(b, used, 0, types.InviteTx, &to, nil, 10))
 	}
 	emit(txs, b.n.Chain.Head.Time()+30)
 	used = map[int]uint32{}
-	self := p.addr(kInvitee)
-	emit([]*types.Transaction{p.tx(b, used, kInvitee, types.ActivationTx, &self, crypto.FromECDSAPub(&p.w.Keys[kInvitee].PublicKey), 0)}, b.n.Chain.Head.Time()+30)
+	self := p.addr(p.kInvitee)
+	emit([]*types.Transaction{p.tx(b, used, p.kInvitee, types.ActivationTx, &self, crypto.FromECDSAPub(&p.w.Keys[p.kInvitee].PublicKey), 0)}, b.n.Chain.Head.Time()+30)
+	if p.multi {
+		p.assignShards(b)
+	}
 	used = map[int]uint32{}
 	txs = nil
-	for k := 0; k < nKeys; k++ {
+	for k := 0; k < p.nk; k++ {
 		id := b.n.App.State.GetIdentity(p.addr(k))
 		n := int(id.RequiredFlips)
 		if p.beh[1][k] == "noflips" && n > 0 {
@@ -663,8 +878,15 @@ func (p *pop) buildBase() {
 		for i := 0; i < n; i++ {
 			txs = append(txs, p.tx(b, used, k, types.SubmitFlipTx, nil, attachments.CreateFlipSubmitAttachment(p.flipCid(b, 1, k, i), uint8(i)), 0))
 		}
+		if len(txs) >= 24 {
+			emit(txs, b.n.Chain.Head.Time()+30)
+			used = map[int]uint32{}
+			txs = nil
+		}
 	}
-	emit(txs, b.n.Chain.Head.Time()+30)
+	if len(txs) > 0 {
+		emit(txs, b.n.Chain.Head.Time()+30)
+	}
 	p.base = blocks
 }
 
@@ -746,7 +968,7 @@ func (p *pop) mkEval(n *sim.Node, height uint64, app *appstate.AppState, r types
 	if os.Getenv("VERIF_DEBUG_RES") != "" {
 		fmt.Fprintln(os.Stderr, "RES", e.Res, sb.String())
 	}
-	for k := 0; k < nKeys; k++ {
+	for k := 0; k < p.nk; k++ {
 		id := app.State.GetIdentity(p.addr(k))
 		last := 0
 		if len(id.Scores) > 0 {
@@ -759,27 +981,25 @@ func (p *pop) mkEval(n *sim.Node, height uint64, app *appstate.AppState, r types
 
 func statuses(p *pop, s *state.StateDB) []int {
 	var res []int
-	for k := 0; k < nKeys; k++ {
+	for k := 0; k < p.nk; k++ {
 		res = append(res, int(s.GetIdentityState(p.addr(k))))
 	}
 	return res
 }
 
-// facts of a built chain, read from its blocks and from the state before the epoch block
-func (p *pop) facts(ch *chain, cands []common.Address, pre *state.StateDB) []map[string]interface{} {
-	idx := map[common.Address]int{}
-	for i, c := range cands {
-		idx[c] = i
-	}
+// facts of a built chain, read from its blocks and from the state before the epoch block.  Evidence is counted per
+// shard: an evidence map speaks about the candidates of its sender's shard, its bits are positions in that shard.
+func (p *pop) facts(ch *chain, cands map[int][]common.Address, pre *state.StateDB) []map[string]interface{} {
+	idx := positions(cands)
 	type f struct {
 		hash, short, long, evi bool
 		appr                   int
 	}
 	fs := map[int]*f{}
-	for k := 0; k < nKeys; k++ {
+	for k := 0; k < p.nk; k++ {
 		fs[k] = &f{}
 	}
-	maps := 0
+	maps := map[int]int{}
 	for _, slot := range slotNames[:len(slotNames)-1] {
 		for _, data := range ch.blocks[slot] {
 			blk := sim.Decode(data)
@@ -795,12 +1015,12 @@ func (p *pop) facts(ch *chain, cands []common.Address, pre *state.StateDB) []map
 					fs[k].long = true
 				case types.EvidenceTx:
 					fs[k].evi = true
-					if _, ok := idx[sender]; ok {
-						maps++
-						bm := common.NewBitmap(uint32(len(cands)))
+					if sp, ok := idx[sender]; ok {
+						maps[sp.shard]++
+						bm := common.NewBitmap(uint32(len(cands[sp.shard])))
 						bm.Read(tx.Payload)
-						for kk := 0; kk < nKeys; kk++ {
-							if i, ok := idx[p.addr(kk)]; ok && bm.Contains(uint32(i)) {
+						for kk := 0; kk < p.nk; kk++ {
+							if pp, ok := idx[p.addr(kk)]; ok && pp.shard == sp.shard && bm.Contains(uint32(pp.i)) {
 								fs[kk].appr++
 							}
 						}
@@ -810,11 +1030,16 @@ func (p *pop) facts(ch *chain, cands []common.Address, pre *state.StateDB) []map
 		}
 	}
 	var res []map[string]interface{}
-	for k := 0; k < nKeys; k++ {
+	for k := 0; k < p.nk; k++ {
 		id := pre.GetIdentity(p.addr(k))
-		_, isCand := idx[p.addr(k)]
+		pp, isCand := idx[p.addr(k)]
+		shard, pos := int(id.ShiftedShardId()), -1
+		if isCand {
+			shard, pos = pp.shard, pp.i
+		}
 		res = append(res, map[string]interface{}{"k": k, "prev": int(id.State), "flipsDone": id.HasDoneAllRequiredFlips(), "cand": isCand,
-			"hash": fs[k].hash, "short": fs[k].short, "long": fs[k].long, "evi": fs[k].evi, "appr": fs[k].appr, "maps": maps,
+			"shard": shard, "idx": pos,
+			"hash": fs[k].hash, "short": fs[k].short, "long": fs[k].long, "evi": fs[k].evi, "appr": fs[k].appr, "maps": maps[shard],
 			"beh": p.beh[1][k]})
 	}
 	return res
@@ -841,7 +1066,7 @@ type scenario struct {
 type group struct {
 	lay    *layout
 	chains map[string]*chain // a, b, a2 (a with another epoch block)
-	cands  []common.Address
+	cands  map[int][]common.Address
 }
 
 type runner struct {
@@ -875,7 +1100,7 @@ func (r *runner) group(name string) *group {
 	ba := p.newNode(0, p.base)
 	a := &chain{id: "a", builder: ba, blocks: map[string][][]byte{}}
 	ct := p.buildCeremony(ba, a, 1, lay, 0, slotIndex("A0"), "a", nil, shuffle)
-	g.cands = ba.vc.VerifCandidates(1)
+	g.cands = candidatesByShard(ba)
 	prefix := a.seq(0, slotIndex("A0"))
 	p.buildCeremony(ba, a, 1, lay, slotIndex("A1"), slotIndex("Clean"), "a", ct, shuffle)
 	toClean := a.seq(0, slotIndex("Clean"))
@@ -958,7 +1183,7 @@ func (r *runner) preState(b *cnode) *state.StateDB {
 
 func (r *runner) emitEval(grp, node, variant, chainId, kind string, e evalRec) {
 	r.out.Emit(tr.M{"ev": "Eval", "sid": r.sid, "grp": grp, "node": node, "variant": variant, "chain": chainId, "kind": kind,
-		"res": e.Res, "st": e.St, "failed": e.Failed, "count": e.Count, "h": e.Height})
+		"res": e.Res, "st": e.St, "failed": e.Failed, "count": e.Count, "h": e.Height, "ms": e.Ms, "msok": e.MsOk})
 }
 
 func (r *runner) emitCommit(grp, node, variant, chainId string, c *cnode, err error) {
@@ -1037,7 +1262,7 @@ func (r *runner) runNode(ns nodeSpec) {
 		step++
 		s, l, h, e := c.vc.VerifStoreSizes()
 		seen := 0 // answer hashes this node saw in its mempool during the short session (node-local observation)
-		for k := 0; k < nKeys; k++ {
+		for k := 0; k < p.nk; k++ {
 			if c.n.App.EvidenceMap.ContainsAnswer(p.addr(k)) {
 				seen++
 			}
@@ -1173,7 +1398,7 @@ func main() {
 		// the clock and the application config are process-global: make this population's current
 		p.w.Use()
 		r := &runner{p: p, out: w, sid: sc.Sid, grps: map[string]*group{}}
-		w.Emit(tr.M{"ev": "Scenario", "sid": sc.Sid, "pop": sc.Pop, "beh": p.beh[1], "nodes": sc.Nodes})
+		w.Emit(tr.M{"ev": "Scenario", "sid": sc.Sid, "pop": sc.Pop, "beh": p.beh[1], "nodes": sc.Nodes, "multi": p.multi})
 		for _, ns := range sc.Nodes {
 			r.runNode(ns)
 		}
